@@ -30,12 +30,13 @@ type CV struct {
 // unregistered types ("other", by tag): 0 S0, 1 S1 (structs), 2 MyStr (named string),
 // 3 MyInt (named int), 4 *S0, 5 *S1. Payload p = 0 is the zero value of the type.
 // Types with a concat function registered by this harness (user.go): 6 Acc, 7 Lim.
+// 8 []string (p = 0 nil, p = 1 empty but not nil, p > 1 p-1 elements; a slice is the zero Value iff nil).
 type S0 struct{ A int }
 type S1 struct{ B int }
 type MyStr string
 type MyInt int
 
-const nOtherTags = 8
+const nOtherTags = 9
 
 func otherToGo(tag, p int) any {
 	switch tag {
@@ -59,6 +60,15 @@ func otherToGo(tag, p int) any {
 		return Acc{N: p}
 	case 7:
 		return Lim{N: p}
+	case 8:
+		if p == 0 {
+			return []string(nil)
+		}
+		s := make([]string, p-1)
+		for i := range s {
+			s[i] = "e"
+		}
+		return s
 	default:
 		if p == 0 {
 			return (*S1)(nil)
@@ -156,6 +166,11 @@ func fromGo(x any) *CV {
 		return &CV{K: "other", Tag: 6, P: t.N}
 	case Lim:
 		return &CV{K: "other", Tag: 7, P: t.N}
+	case []string:
+		if t == nil {
+			return &CV{K: "other", Tag: 8, P: 0}
+		}
+		return &CV{K: "other", Tag: 8, P: len(t) + 1}
 	case map[string]string:
 		m := map[string]*CV{}
 		for k, e := range t {
@@ -217,6 +232,7 @@ type Case struct {
 	Lists  [][]*Msg `json:"lists,omitempty"`
 	MMaps  []MMap   `json:"mmaps,omitempty"` // msgmap: map chunks whose values may be messages
 	Typed  bool     `json:"typed,omitempty"` // msgmap: static type map[string]*schema.Message instead of map[string]any
+	Any    bool     `json:"any,omitempty"`   // generic: the static chunk type is any (interface-typed stream)
 	Fanin  bool     `json:"fanin,omitempty"` // msgmap: every chunk holds one message under one key; also run as a compose fan-in
 }
 
@@ -235,6 +251,26 @@ func concatTyped[T any](vals []any) (out any, err error) {
 	}
 	sr := schema.StreamReaderFromArray(items)
 	return compose.VerifConcatStreamReader(sr)
+}
+
+// concatAnyGo runs concatStreamReader[any] on the chunk list (chunks of any dynamic type, nil included).
+func concatAnyGo(chunks []*CV) (o Obs) {
+	vals := make([]any, len(chunks))
+	for i, c := range chunks {
+		vals[i] = c.toGo()
+	}
+	var out any
+	var err error
+	p := lib.Recover(func() {
+		out, err = compose.VerifConcatStreamReader(schema.StreamReaderFromArray(vals))
+	})
+	if p != nil {
+		return Obs{Class: "panic", Msg: fmt.Sprint(p)}
+	}
+	if err != nil {
+		return Obs{Class: "err", Msg: err.Error()}
+	}
+	return Obs{Class: "val", Val: fromGo(out)}
 }
 
 // concatGo runs concatStreamReader on the chunk list at its static type.
@@ -277,6 +313,8 @@ func concatGo(chunks []*CV) (o Obs) {
 			out, err = concatTyped[Acc](vals)
 		case Lim:
 			out, err = concatTyped[Lim](vals)
+		case []string:
+			out, err = concatTyped[[]string](vals)
 		case map[string]string:
 			out, err = concatTyped[map[string]string](vals)
 		case map[string]int:
@@ -384,6 +422,7 @@ const (
 	tdPS1
 	tdAcc
 	tdLim
+	tdStrSlice
 	tdMapAny
 	tdMapStr
 	tdMapInt
@@ -395,7 +434,7 @@ const (
 var sibling = map[int]int{tdStr: tdMyStr, tdMyStr: tdStr, tdInt: tdMyInt, tdMyInt: tdInt, tdS0: tdS1, tdS1: tdAcc,
 	tdPS0: tdPS1, tdPS1: tdPS0, tdMapAny: tdMapStr, tdMapStr: tdMapInt, tdMapInt: tdMapAny, tdAcc: tdLim, tdLim: tdS0}
 
-var tdNames = []string{"string", "int", "int64", "bool", "float64", "S0", "S1", "MyStr", "MyInt", "*S0", "*S1", "Acc", "Lim",
+var tdNames = []string{"string", "int", "int64", "bool", "float64", "S0", "S1", "MyStr", "MyInt", "*S0", "*S1", "Acc", "Lim", "[]string",
 	"map[string]any", "map[string]string", "map[string]int", "nil"}
 
 func genVal(r *lib.Rng, td, depth int) *CV {
@@ -409,6 +448,8 @@ func genVal(r *lib.Rng, td, depth int) *CV {
 		return &CV{K: "num", Kind: 2, Z: int64(r.Intn(2))}
 	case tdS0, tdS1, tdMyStr, tdMyInt, tdPS0, tdPS1:
 		return &CV{K: "other", Tag: map[int]int{tdS0: 0, tdS1: 1, tdMyStr: 2, tdMyInt: 3, tdPS0: 4, tdPS1: 5}[td], P: payload}
+	case tdStrSlice:
+		return &CV{K: "other", Tag: 8, P: []int{0, 0, 1, 2, 3}[r.Intn(5)]}
 	case tdAcc, tdLim:
 		// registered custom types: payloads 0..3 (Lim fails when the sum exceeds 5)
 		return &CV{K: "other", Tag: map[int]int{tdAcc: 6, tdLim: 7}[td], P: r.Intn(4)}
@@ -479,6 +520,33 @@ func genGeneric(r *lib.Rng, tier string) *Case {
 		top = r.Intn(nTD - 1) // every type but nil
 	}
 	c.Chain = r.Chance(1, 3)
+	if r.Chance(1, 6) {
+		// interface-typed stream: chunks mostly of one dynamic type, nil chunks, rare clashes
+		c.Any = true
+		td := r.Intn(nTD - 1) // the dynamic type most chunks have: every type, pointers included
+		if r.Chance(1, 4) {
+			td = []int{tdPS0, tdMapAny, tdPS1, tdStr}[r.Intn(4)]
+		}
+		for i := 0; i < n; i++ {
+			t := td
+			switch {
+			case r.Chance(1, 5):
+				t = tdNil
+			case r.Chance(1, 12):
+				if sib, ok := sibling[td]; ok && r.Chance(1, 2) {
+					t = sib
+				} else {
+					t = r.Intn(nTD)
+				}
+			}
+			if t == tdMapAny {
+				c.Chunks = append(c.Chunks, genMap(r, depth, keyTypes))
+			} else {
+				c.Chunks = append(c.Chunks, genVal(r, t, depth))
+			}
+		}
+		return c
+	}
 	for i := 0; i < n; i++ {
 		if top == tdMapAny {
 			c.Chunks = append(c.Chunks, genMap(r, depth, keyTypes))
@@ -520,9 +588,16 @@ func (engine) Run(ci any) lib.Result {
 		return runMsg(c)
 	}
 	res := lib.Result{}
+	concatGo := concatGo
+	if c.Any {
+		concatGo = concatAnyGo
+	}
 	o := concatGo(c.Chunks)
 	res.Obs = o
 	res.Tags = []string{"kind:generic", "class:" + o.Class, fmt.Sprintf("chunks:%d", len(c.Chunks))}
+	if c.Any {
+		res.Tags = append(res.Tags, "static:any")
+	}
 	if len(c.Chunks) > 0 {
 		res.Tags = append(res.Tags, "top:"+c.Chunks[0].K)
 	}
@@ -532,9 +607,21 @@ func (engine) Run(ci any) lib.Result {
 	res.Tags = append(res.Tags, clashTags(c.Chunks)...)
 	res.Nontrivial = len(c.Chunks) >= 2
 	res.CoqTerm = lib.CoqApp("CaseGen", lib.CoqList(mapCoq(c.Chunks)), o.coq())
+	if c.Any {
+		res.CoqTerm = lib.CoqApp("CaseAny", lib.CoqList(mapCoq(c.Chunks)), o.coq())
+	}
 
 	// the public path: a compiled chain that must concatenate a node's output stream
-	if len(c.Chunks) > 0 && c.Chain {
+	// (a node whose whole output is the nil value is the graph engine's business, not
+	// concatenation's: such cases are not sent through the chain)
+	if len(c.Chunks) > 0 && c.Chain && c.Any && !(o.Class == "val" && o.Val.K == "nil") {
+		res.Tags = append(res.Tags, "api:chain.Invoke")
+		if oc := concatViaChain[any](c.Chunks); !obsEqual(o, oc) {
+			res.Oracle = "chain.Invoke and concatStreamReader disagree: " + js(oc) + " vs " + js(o)
+			res.Sig = "generic-api-disagree"
+		}
+	}
+	if len(c.Chunks) > 0 && c.Chain && !c.Any {
 		var oc Obs
 		known := true
 		switch c.Chunks[0].toGo().(type) {
@@ -613,7 +700,7 @@ func goTypeName(v *CV) string {
 	case "num":
 		return []string{"int", "int64", "bool", "float64"}[v.Kind]
 	case "other":
-		return []string{"S0", "S1", "MyStr", "MyInt", "*S0", "*S1", "Acc", "Lim"}[v.Tag]
+		return []string{"S0", "S1", "MyStr", "MyInt", "*S0", "*S1", "Acc", "Lim", "[]string"}[v.Tag]
 	case "map":
 		if v.MT == 1 {
 			return "map[string]string"
@@ -627,7 +714,7 @@ func goTypeName(v *CV) string {
 }
 
 var kindOf = map[string]string{"string": "string", "MyStr": "string", "int": "int", "MyInt": "int", "S0": "struct", "S1": "struct",
-	"*S0": "ptr", "*S1": "ptr", "Acc": "struct", "Lim": "struct", "map[string]any": "map", "map[string]string": "map", "map[string]int": "map", "int64": "int64", "bool": "bool", "float64": "float64"}
+	"*S0": "ptr", "*S1": "ptr", "Acc": "struct", "Lim": "struct", "[]string": "slice", "map[string]any": "map", "map[string]string": "map", "map[string]int": "map", "int64": "int64", "bool": "bool", "float64": "float64"}
 
 // clashTags reports whether some key (at any depth, following the first map per key) holds
 // values of different Go types, and whether two of them share a reflect.Kind.
